@@ -12,7 +12,7 @@ from ._pairs import table_state_keys, executed_rows, V
 
 PID = "C16"
 LEVEL = "model_checking"
-WITNESSES = ["completed_run", "documented_rejection", "thermal_crop_run", "layered_soil_run", "option_deviation_run", "window_deviation_run", "leap_day_window", "end_around_last_maturity"]
+WITNESSES = ["completed_run", "documented_rejection", "thermal_crop_run", "layered_soil_run", "option_deviation_run", "window_deviation_run", "leap_day_window", "end_around_last_maturity", "input_objects_used_before"]
 NONTRIVIAL = ["documented_rejection", "thermal_crop_run", "layered_soil_run", "option_deviation_run", "window_deviation_run", "leap_day_window"]
 
 SOILS15 = ["Clay", "ClayLoam", "Default", "Loam", "LoamySand", "Sand", "SandyClay", "SandyClayLoam", "SandyLoam", "Silt", "SiltClayLoam", "SiltLoam", "SiltClay", "Paddy", "ac_TunisLocal"]
@@ -161,6 +161,12 @@ def scenarios(tier, seed=0):
         for sw in (0, 1):
             for d in range(-3, 4):
                 yield {"kind": "endlat", "crop": name, "switch": sw, "d": d}
+    # input objects that an earlier model has already used: a Soil extended for a shallow-rooted crop, then given to a deep-rooted one
+    # (and the other way round), with enough water for the roots to reach their maximum depth; also a re-used crop / management object
+    pairs = [("Potato", "Maize"), ("Tomato", "Cotton"), ("PaddyRice", "Wheat"), ("Maize", "Potato"), ("Onion", "SugarCane"), ("Cabbage", "AlfalfaGDD")]
+    for first, second in (pairs if tier != "quick" else pairs[:4]):
+        for soil in ("SandyLoam", "Clay"):
+            yield {"kind": "reuse", "first": first, "second": second, "soil": soil}
     devs = list(OPTION_DEVS) + list(WINDOW_DEVS)
     for bi, b in enumerate(BASES):
         for d in devs:
@@ -176,6 +182,9 @@ def scenarios(tier, seed=0):
 def build(scn):
     if scn["kind"] == "cat":
         return cat(scn["crop"], scn["soil"], scn["irr"])
+    if scn["kind"] == "reuse":
+        names = A.catalogue_names()
+        return cat(scn["second"] if scn["second"] in names else "Maize", scn["soil"], "smt", word="showers")
     if scn["kind"] == "endlat":
         import datetime as dt
         from aquacrop.entities.crops.crop_params import crop_params
@@ -207,7 +216,19 @@ def run(scn):
     if spec is None:
         res["notes"].append("deviation not applicable to this base")
         return res
-    t, a, m = run_plain(spec, timeout=150)
+    if scn["kind"] == "reuse":
+        names = A.catalogue_names()
+        first = scn["first"] if scn["first"] in names else "Potato"
+        spec1 = cat(first, scn["soil"], "none")
+        ent1 = S.make_entities(spec1)
+        run_plain(spec1, timeout=150, entities=ent1)
+        ent = S.make_entities(spec)
+        ent["soil"] = ent1["soil"]                      # the same Soil object, already initialised by the first model
+        ent["initial_water_content"] = ent1["initial_water_content"]
+        t, a, m = run_plain(spec, timeout=150, entities=ent)
+        wit["input_objects_used_before"] = 1
+    else:
+        t, a, m = run_plain(spec, timeout=150)
     res["evals"] = 1
     facts = {"crop": spec["crop"]["name"], "soil": spec["soil"]["type"], "irr_method": (spec.get("irr") or {}).get("method", 0), "devs": scn.get("devs", [])}
     if scn["kind"] == "endlat":
